@@ -163,7 +163,7 @@ func runC16(c *Ctx) {
 				"the connection forgets a room without being removed from it: it keeps receiving that room's messages", c.blockPath(path)...)
 		})
 	}
-	c.floor("C16-R4", 2)
+	c.floor("C16-R4", 1)
 
 	// ---- R5 limits
 	c.rule("C16-R5", "MPT: every insert into Hub.connections / Room.connections is preceded, in the same critical section, by a comparison of len(<that map>) with the configured maximum whose len==max outcome does not reach the insert; and the *Config handed to NewServer reaches the Hub it creates")
